@@ -22,6 +22,13 @@ def run():
         seen += 1
         if ob["status"] != want:
           problems.append("%s/%s: %s, expected %s" % (u.name, nm, ob["status"], want))
+      if nm.startswith("loop.preserve:ok_") or nm.startswith("loop.preserve:bad_"):
+        seen += 1
+        if nm.startswith("loop.preserve:ok_") and ob["status"] != "proved":
+          problems.append("%s/%s: %s, expected proved" % (u.name, nm, ob["status"]))
+        if nm.startswith("loop.preserve:bad_") and ob["status"] == "proved":
+          problems.append("%s/%s: proved, expected refuted or unknown (ghost state must be arbitrary at a loop cut)" % (u.name, nm))
+        continue
       if nm.startswith("exc."):
         want_ref = se.EXPECTED_REFUTED_EXC.get(u.name)
         if want_ref and nm.startswith(want_ref):
